@@ -303,7 +303,8 @@ func NodeTriggersOkRead(rootNode *RootAssertionNode, nonceGenerator *guard.Nonce
 
 	var effects []RichCheckEffect
 
-	switch rhs := rhs[0].(type) {
+	// Parentheses around the rhs, e.g., `v, ok := (mp[k])`, do not change its meaning.
+	switch rhs := ast.Unparen(rhs[0]).(type) {
 	case *ast.IndexExpr:
 		// this is the case of `v, ok := mp[k]`. Early return if the lhs is not a map read of the expected format
 		if len(lhs) != 2 {
@@ -431,7 +432,8 @@ func NodeTriggersFuncErrRet(rootNode *RootAssertionNode, nonceGenerator *guard.N
 		return nil, false
 	}
 
-	callExpr, ok := rhs[0].(*ast.CallExpr)
+	// Parentheses around the call, e.g., `v, err := (f())`, do not change its meaning.
+	callExpr, ok := ast.Unparen(rhs[0]).(*ast.CallExpr)
 
 	if !ok {
 		// rhs is not a function call
